@@ -283,6 +283,21 @@ func (c *SessionCache) Invalidate(id string) bool {
 	return true
 }
 
+// forget removes whatever the cache holds under a session identifier: the entry, if there is
+// one, and every command mapping that leads to the identifier -- also when no entry is left
+// (LookupNonExpired deletes an expired entry but not its mappings).
+func (c *SessionCache) forget(id string) {
+	c.mu.Lock()
+	defer c.mu.Unlock()
+
+	delete(c.sessions, id)
+	for key, sessID := range c.commandMap {
+		if sessID == id {
+			delete(c.commandMap, key)
+		}
+	}
+}
+
 // InvalidateExpired removes all expired sessions from the cache
 func (c *SessionCache) InvalidateExpired() int {
 	c.mu.Lock()
